@@ -412,4 +412,7 @@ def run(prog, rep, tier, snap):
     rep.call(r16_4, prog, rep)
     rep.rule("R09.1", "bounded occurrence-cache writes (shared with C09)", 10)
     rep.call(fillers.r09_1, prog, rep)
+    from ..rules import state
+    rep.rule("R16.6", "the fillers and their helpers carry no state from one rule to the next", 1)
+    rep.call(state.no_carried_state, prog, rep, "R16.6", "rrule")
 READY = True
